@@ -6,13 +6,18 @@ use libfuzzer_sys::fuzz_target;
 include!("common.rs");
 
 fuzz_target!(|data: &[u8]| {
-    let known = setup("C10");
+    let known = setup("C10+C11");
     let Ok(src) = std::str::from_utf8(data) else { return };
     if src.len() > 4000 {
         return;
     }
     if let Err(v) = vharness::props::c10::check_source(src) {
-        if !known.contains(&v.sig) {
+        // the assembler panic on a decorator-only span is C11's listed finding, reached here through
+        // the compile step
+        let c11_span = v.sig == "C10:compile-panic"
+            && v.msg.contains("span_builder.rs:152")
+            && known.iter().any(|k| k == "C11:valid-source-panics:assembly/src/assembler/span_builder.rs:152");
+        if !known.contains(&v.sig) && !c11_span {
             fail("C10", "ast_text", v);
         }
     }
